@@ -405,6 +405,25 @@ Proof.
     unfold req_result; intros H; inv H; cbn; destruct (mreq P D s); cbn; repeat split; auto.
 Qed.
 
+(* ... whereas with a checkpoint in effect the same point of the loop DOES pause: devices stopped and paused, lifecycle
+   paused, the caller is woken (blocking event set) and the task waits for the run permit *)
+Lemma allowed_pausing_paused : allowed Pausing Paused = true. Proof. vm_compute. reflexivity. Qed.
+
+Theorem pausing_with_checkpoint_pauses fuel (s : st) os l s2 o2 s3 o3 :
+  state P D s = Pausing -> cache P D s = Some l -> permit P D s = false ->
+  stop_movables P D dev s = (s2, o2) -> call_pausables P D dev s2 MPause = (s3, None, o3) ->
+  drive P presume plan_of D dev (S fuel) s CTop os =
+  (set_pc P D (set_blocking P D (set_state_raw P D s3 Paused) true) PcPaused,
+   os ++ [] ++ o2 ++ o3 ++ [OState Pausing Paused] ++ [OTask WFuture]).
+Proof.
+  intros Hs Hc Hp E2 E3. cbn [drive]. unfold resumable. rewrite Hc, Hs.
+  cbn [rstate_eqb sname String.eqb Ascii.eqb Bool.eqb orb andb negb]. rewrite Hp. cbn [negb]. rewrite Hs.
+  cbn [rstate_eqb sname String.eqb Ascii.eqb Bool.eqb negb]. rewrite E2, E3.
+  pose proof (stop_movables_spec _ _ _ E2) as [(_ & _ & _ & _ & Q25 & _) _].
+  pose proof (call_pausables_peq _ _ _ _ _ E3) as (_ & _ & _ & _ & Q35 & _).
+  unfold set_state. rewrite Q35, Q25, Hs, allowed_pausing_paused. reflexivity.
+Qed.
+
 (* ------------------------------------------------------------------ C09: deferred pause, step level *)
 (* the deferred request only sets the flag: no lifecycle change, no cancellation, nothing pushed *)
 Theorem defer_request_only_sets_flag (s : st) s' o :
